@@ -5,6 +5,8 @@
 (*   {e: "Poll",   at, snap: {local, pv: [...], st: [...]}}   one per round   *)
 (*        trip of the two schema-version queries, with the snapshot that was  *)
 (*        current at that (virtual) instant                                   *)
+(*   {e: "PollLost", at, end}   the two queries sent at `at` got no answer;   *)
+(*        the request timed out at `end`                                      *)
 (*   {e: "Finish", v: "yes" | "no", at}   the value wait_for_schema_agreement *)
 (*        returned ("direct") / ResponseFuture.is_schema_agreed ("ddl_*")     *)
 (*   {e: "Abort",  v: "n/a" | "yes" | "no", at}   an exception escaped from   *)
@@ -37,6 +39,7 @@ TraceNext ==
     /\ UNCHANGED tid
     /\ LET e == Tr[l] IN
        \/ e.e = "Poll"   /\ Poll(SnapOf(e.snap), e.at)
+       \/ e.e = "PollLost" /\ PollLost(e.at, e.end)
        \/ e.e = "Finish" /\ Finish(e.v, e.at)
        \/ e.e = "Abort"  /\ Abort(e.v, e.at)
 
